@@ -395,3 +395,15 @@ Fixpoint params_at (pat : pattern) (parts : list part) (acc : list (str * str))
   | (_, PConst _) :: pat', _ :: parts' => params_at pat' parts' acc
   | _, _ => acc
   end.
+
+(* Two declared patterns agree on the kind (host label / path segment) of
+   every step along their common node path.  The insertion does not compare
+   kinds (the node keeps the kind of whichever declaration created it), so
+   the theorems about trees built from several declarations assume it. *)
+Fixpoint kind_agree (p q : pattern) : bool :=
+  match p, q with
+  | (k1, s1) :: p', (k2, s2) :: q' =>
+      if skey_eqb (skey_of s1) (skey_of s2) then eqb k1 k2 && kind_agree p' q'
+      else true
+  | _, _ => true
+  end.
